@@ -269,14 +269,29 @@ func userCallbackCall(c *Ctx, call ssa.CallInstruction) string {
 
 // peerDerived: v derives from a decoded peer message (a Params member chain, a lookup in / assertion on a
 // value that was the target of json.Unmarshal / Decode in this function).
+// peerParam, when set, says whether a parameter carries decoded peer data because a library caller passes such data
+// (the decoders that take apart a map[string]any handed down by the function that unmarshalled it).
+var peerParam func(p *ssa.Parameter, depth int) bool
+
 func peerDerived(v ssa.Value, depth int) bool {
-	if depth > 8 || v == nil {
+	if depth > 14 || v == nil {
 		return false
 	}
 	if derivesFromParams(v, 0) {
 		return true
 	}
 	switch x := v.(type) {
+	case *ssa.Parameter:
+		if peerParam != nil {
+			switch ir.TypeStr(x.Type()) {
+			case "map[string]interface{}", "map[string]any", "[]interface{}", "[]any", "interface{}", "any":
+				return peerParam(x, depth)
+			}
+		}
+	case *ssa.Next:
+		if rg, ok := x.Iter.(*ssa.Range); ok {
+			return peerDerived(rg.X, depth+1) // an element (or key) of a decoded slice or map
+		}
 	case *ssa.TypeAssert:
 		return peerDerived(x.X, depth+1)
 	case *ssa.Extract:
@@ -290,6 +305,9 @@ func peerDerived(v ssa.Value, depth int) bool {
 			}
 		}
 	case *ssa.UnOp:
+		if ia, ok := x.X.(*ssa.IndexAddr); ok && x.Op == token.MUL && peerDerived(ia.X, depth+1) {
+			return true // element of a decoded slice
+		}
 		if x.Op == token.MUL {
 			// load of a local that was an Unmarshal target, or of a field of one
 			root := rootOf(x.X)
